@@ -522,6 +522,16 @@ func (u *Unit) variantAt(s *State, f *Frame, al *ActiveLoop, spec *LoopSpec, bod
 	if !u.WantTerm {
 		return nil
 	}
+	// range over a string: the byte position strictly increases and is bounded by the length
+	for b := range body {
+		for _, in := range b.Instrs {
+			if nx, ok := in.(*ssa.Next); ok && nx.IsString {
+				if it := f.Iters[nx.Iter]; it != nil && it.IsStr {
+					return Add(Sub(u.W.StrLen(u.term(s, it.X)), it.Pos), IntLit(1))
+				}
+			}
+		}
+	}
 	// first comparison that guards a loop exit
 	var blocks []*ssa.BasicBlock
 	for b := range body {
